@@ -151,6 +151,11 @@ def prune(cfg, keep):
         ds = [os.path.join(BUILD, x) for x in os.listdir(BUILD) if x.startswith(cfg + '-') and '.tmp' not in x]
     except OSError:
         return
+    now = __import__('time').time()
+    for x in os.listdir(BUILD):                      # abandoned temporary build dirs (killed builds)
+        p = os.path.join(BUILD, x)
+        if '.tmp' in x and now - os.path.getmtime(p) > 1800:
+            shutil.rmtree(p, ignore_errors=True)
     ds = [x for x in ds if x != keep]
     ds.sort(key=lambda x: os.path.getmtime(x), reverse=True)
     for x in ds[1:]:
